@@ -6,6 +6,7 @@
 //! (input distribution, oracle results).
 mod alloc;
 mod c09;
+mod c11;
 mod c13;
 mod c20;
 mod codec;
@@ -16,6 +17,10 @@ static GLOBAL: alloc::Counting = alloc::Counting;
 
 fn main() {
     let args: Vec<String> = std::env::args().collect();
+    if args.len() == 4 && args[1] == "posthash" {
+        c11::posthash(&args[2], &args[3]).expect("posthash");
+        return;
+    }
     if args.len() < 6 || args[1] != "run" {
         eprintln!("usage: harness run <property> <quick|thorough> <seed> <outdir>");
         std::process::exit(2);
@@ -30,6 +35,7 @@ fn main() {
     let mut out = util::Out::new();
     match prop {
         "C09" => c09::run(&mut out, thorough, seed),
+        "C11" => c11::run(&mut out, thorough, seed),
         "C13" => c13::run(&mut out, thorough, seed),
         "C20" => c20::run(&mut out, thorough, seed),
         "C07" | "C08" => codec::run(&mut out, thorough, seed, prop),
